@@ -121,7 +121,7 @@ def run(v):
         return
     out = os.path.join(C.WORK, PID)
     fresh_out(out)
-    n = 20 if v.tier == "quick" else 200
+    n = 24 if v.tier == "quick" else 240
     rc, o = C.sh([C.harness_bin(HARNESS), "crash", "-mode", "trace", "-out", out, "-n", str(n), "-seed", str(v.seed)],
                  timeout=3000)
     if rc != 0:
@@ -143,7 +143,7 @@ def run(v):
         "traces_validated_against_impl": total,
         "rule": "one case per real system-call trace: deterministic scripts (sync + upload to a file replica, snapshot, "
                 "compaction, retention incl. L0/snapshot/TXID retention, passive checkpoint, restore, follow-mode restore, "
-                "TXID sidecar, baseline fetch after losing local state; and over ONE OPEN DB with directories removed and re-created "
+                "TXID sidecar, baseline fetch after losing local state, legacy v0.3.x restore (RestoreV3) of a snapshot-only generation and of a snapshot + WAL segments generation built from the real -wal file, initial follow-mode restore on the main thread; and over ONE OPEN DB with directories removed and re-created "
                 "between publishes: ResetLocalState then syncs, ResetLocalState + behind-replica baseline fetch then syncs and "
                 "uploads, publishes OVER existing final names each acknowledged (same snapshot twice, L0 re-upload after the replica position was set back, sidecar rewritten), restore / sidecar into a re-created output directory with compaction and retention in between) over the real litestream code in a child process "
                 "under strace -f -y; script parameters (rounds, rows, payload size, PRNG seed) drawn from the seeded PRNG; "
